@@ -26,6 +26,7 @@ def truth_of(vals, neg):
 
 def run(prog, rep, tier='quick', config='default'):
     r12f(prog, rep)
+    r12g(prog, rep)
     eff = prog.fn(MOD + 'RateLoader::get_effective_usd_cad_rate')
     exact = None
     for cand in prog.product_fns():
@@ -244,3 +245,44 @@ def r12f(prog, rep):
     else:
         rep.ok('R12f', 'quote-direction-by-series-not-by-value', where=divs[0].where(), fn=divs[0].fn.name,
                detail='the reciprocal is applied at %d site(s) and no Decimal is compared by size anywhere in the module' % len(divs))
+
+
+def r12g(prog, rep):
+    """every downloaded observation is kept: the function that pads a downloaded year with placeholder days walks the observations
+    themselves and pushes each one into the result on every path (a walk over a fixed number of days that merely *looks up*
+    observations drops whatever falls outside it - 31 December of a leap year with 365 days)"""
+    DR = r'std::vec::Vec<fx::model::DailyRate'
+    cands = [f for f in prog.product_fns() if f.name.startswith('fx::io::rate_loader::') and f.kind == 'Fn' and
+             re.search(DR, f.ty.get(0, '')) and any(re.search(r'&' + DR, f.ty.get(p, '')) for p in range(1, f.argc + 1))]
+    if not rep.anchor('padding function of a downloaded year (&Vec<DailyRate>, year) -> Vec<DailyRate>', [f.name for f in cands]):
+        return
+    for f in cands:
+        inp = [p for p in range(1, f.argc + 1) if re.search(r'&' + DR, f.ty.get(p, ''))][0]
+        k = '%s|every-observation-is-kept' % f.name
+        ok = False
+        why = 'no loop over the downloaded observations'
+        for (nc, header, body) in f.iterator_loops():
+            o = mir.provenance(f, nc.args[0], follow_all_call_args=True)
+            if inp not in o.params or not re.search(r'Iter<.*DailyRate', f.ty.get(nc.arg_local(0), '')):
+                continue
+            sw = f.blocks[nc.target]['term'] if nc.target in f.blocks else None
+            entry = ([tg for v, tg in sw['targets'] if v == 1] or [sw['otherwise']])[0] if sw and sw['t'] == 'switch' else None
+            elem = nc.dst['l']
+            pushes = set()
+            for c in f.calls:
+                if c.bb in body and c.short == 'push' and re.search(DR, f.ty.get(c.arg_local(0), '')) and len(c.args) > 1:
+                    po = mir.provenance(f, c.args[1], follow_all_call_args=True)
+                    if elem in po.locals:
+                        pushes.add(c.bb)
+            if entry is not None and pushes and not f.reaches(entry, header, avoid=pushes):
+                ok = True
+            else:
+                why = 'an observation can be passed over without being pushed into the result'
+        ext = [c for c in f.calls if c.short in ('extend', 'extend_from_slice', 'append') and re.search(DR, f.ty.get(c.arg_local(0), '')) and
+               len(c.args) > 1 and inp in mir.provenance(f, c.args[1], follow_all_call_args=True).params]
+        if ok or ext:
+            rep.ok('R12g', k, fn=f.name, where='%s:%d' % (f.file, f.line), detail='each observation of the download is pushed into the padded year')
+        else:
+            rep.violation('R12g', k, fn=f.name, where='%s:%d' % (f.file, f.line),
+                          detail='%s: a rate that was published for a trade date can be missing from the year\'s table, and the row is then '
+                                 'converted with an earlier day\'s rate' % why)
